@@ -5,6 +5,7 @@ CONSTANTS
   MenuKind = "focus"
   MaxDepth = 4
   StartChain = FALSE
+  EmitMin = 0
   Emit = TRUE
 INVARIANT BagMatches
 INVARIANT ListMatches
